@@ -34,7 +34,7 @@ def grammar():
 TYPES = ['counter', 'gauge', 'summary', 'histogram', 'gaugehistogram', 'unknown', 'info', 'stateset']
 
 
-def gen_custom(rng):
+def gen_custom(rng, legacy_families=False):
     """Families a custom collector may yield: no constructor ever validated these strings."""
     from prometheus_client.metrics_core import Metric
     from prometheus_client.samples import Exemplar
@@ -42,6 +42,8 @@ def gen_custom(rng):
     for i in range(rng.randrange(1, 3)):
         typ = rng.choice(TYPES)
         name = ('c%d' % i) + reggen.adv_string(rng, 4)
+        if legacy_families:     # a name the constructor accepts under legacy validation; the sample names stay adversarial
+            name = 'c%d%s' % (i, rng.choice(['', '_a', ':x', '_1']))
         unit = ''
         if rng.random() < 0.3 and typ not in ('info', 'stateset'):
             unit = rng.choice(['s', 'bytes', reggen.adv_string(rng, 3, empty_ok=False)])
@@ -107,7 +109,11 @@ def build(case):
         return reggen.gen_registry(rng, utf8=not case['legacy'], om=True, exemplars=True, units=True)
     if kind == 'custom' or kind == 'graphite':
         reg = CollectorRegistry(auto_describe=False)
-        fams = gen_custom(rng) if rng.random() < 0.7 else list(reggen.gen_registry(rng, utf8=True, om=True).collect())
+        try:
+            fams = (gen_custom(rng, legacy_families=case.get('legacy', False)) if rng.random() < 0.7 or case.get('legacy')
+                    else list(reggen.gen_registry(rng, utf8=True, om=True).collect()))
+        except ValueError:
+            return None
         reg.register(reggen.ListCollector(fams))
         return reg
     if kind == 'ctor':
@@ -142,6 +148,9 @@ def cases(ctx):
     for _ in range(n):
         yield dict(kind='api', legacy=rng.random() < 0.4, rseed=rng.getrandbits(48))
         yield dict(kind='custom', legacy=False, rseed=rng.getrandbits(48))
+        # custom collectors under LEGACY validation: family constructors check their names then, sample names given to
+        # add_sample are checked by nobody - the expositions must still quote and escape them
+        yield dict(kind='custom', legacy=True, rseed=rng.getrandbits(48))
         yield dict(kind='ctor', legacy=rng.random() < 0.5, rseed=rng.getrandbits(48))
         yield dict(kind='ctor', legacy=rng.random() < 0.5, rseed=rng.getrandbits(48))
         if rng.random() < 0.5:
